@@ -174,6 +174,9 @@ class SemFlow(Flow):
                     raise Unsupported("discriminant of aggregate " + v[1])
                 return ("disc_known", k[1])
             return ("disc", self.term(v))
+        m = re.match(r"^((?:(?:no_retag )?(?:copy|move) )?_\d+|const .*?) as (.+?) \(PointerCoercion\(.*\)\)$", txt)
+        if m:                                             # array -> slice and similar unsizing coercions keep the value
+            return self.operand(P, m.group(1) if m.group(1).startswith(("copy", "move", "const", "no_retag")) else "copy " + m.group(1))
         m = re.match(r"^(.*) as (.+?) \((\w+)\)$", txt)
         if m and re.match(r"^(?:no_retag )?(copy|move) |^const ", m.group(1)):
             v = self.operand(P, m.group(1))
@@ -312,6 +315,9 @@ class SemFlow(Flow):
                 Q.calls = list(P.calls)
                 work.append((Q, tgt, steps, False))
             return "forked"
+        if re.match(r"^(.*?) = .*\) -> (unwind \w+|bb\d+)$", s) and "[return:" not in s:
+            P.calls.append(("DIVERGES:" + s[:60], [], None))      # a call that never returns (panic_fmt, ...): the path ends
+            return "unreachable"
         m = re.match(r"^assert\((!?)(?:move|copy) (.*?), \"", s)
         if m:
             try:
@@ -342,6 +348,9 @@ class SemFlow(Flow):
                 if re.search(pat, callee):
                     args = [self.operand(P, a) for a in split_top(call[start + 1:k]) if a.strip()]
                     res = eff(self, P, callee, args)
+                    if isinstance(res, tuple) and res == ("stop",):       # the model ends the path here (everything of interest has been recorded)
+                        P.calls.append(("STOP:" + callee, args, None))
+                        return "return"
                     l, p = self.parse_place(dest)
                     if isinstance(res, tuple) and res and res[0] == "fork":
                         for newpc, rv, pseudo in res[1]:
